@@ -136,12 +136,14 @@ def alt_accepts(alt: dict, op: dict, isa: Isa) -> bool:
     kind = alt['type']
     k = op['k']
     # an enumeration key is textually an identifier: any plain-expression alternative reads it as a label
+    # (a key such as "eq.l" is not an identifier: no expression alternative reads it)
+    as_label = k == 'enum' and str(op['key']).isidentifier()
     if kind in ('numeric', 'address', 'numeric_bytecode', 'numeric_enumeration'):
-        return k in ('expr', 'enum')
+        return k == 'expr' or as_label
     if kind == 'relative_address':
         if alt.get('use_curly_braces', False):
             return k == 'braced'
-        return k in ('expr', 'enum')
+        return k == 'expr' or as_label
     if kind == 'register':
         return k == 'reg' and op['r'].lower() == alt['register'].lower() and _same_deco(alt, op)
     if kind == 'indirect_register':
